@@ -428,6 +428,93 @@ def _run(chk, K, h, model, quick):
                 stats["agree"] += 1
         main.add(cid, cmds, post)
 
+    # ---- a limit hit in one scan must not change a LATER scan on the same scanner.  The per-string state of the cap
+    #      (strings_temp_disabled, one bit per string, scanner.c:_yr_scanner_clean_matches) is sized by the number of
+    #      strings, the neighbouring bitmaps by the number of rules: rule sets with many more strings than rules
+    #      (>= 70 strings in < 64 rules), the capped string at a global index beyond / below 64 (bitmap word boundary).
+    later = [("one70_last", [70], 69), ("seven10_last", [10] * 7, 69), ("one70_mid", [70], rng.range(8, 63))]
+    if not quick:
+        later += [("one70_63", [70], 63), ("one70_64", [70], 64), ("one70_65", [70], 65), ("two_65_5_first", [65, 5], 0),
+                  ("one135_last", [135], 134), ("three_130", [3, 64, 63], 129), ("mix_%d" % 0, [1, 33, 36], rng.range(64, 69)),
+                  ("rnd", [rng.range(1, 30) for _ in range(5)] + [70], rng.range(64, 75))]
+    for t, (name, layout, capidx) in enumerate(later):
+        r = rng.fork()
+        capstr = ["a", "aa"][t % 2]
+        total = sum(layout)
+        capidx = min(capidx, total - 1)
+        rules_src, idents, g = [], [], 0          # idents[global index] = (rule name, identifier, text)
+        for ri, ns in enumerate(layout):
+            decls = []
+            for k in range(ns):
+                if g == capidx:
+                    ident, text = "$c", capstr
+                else:
+                    ident, text = "$s%d" % k, "m%03dx" % g
+                decls.append('%s = "%s"' % (ident, text))
+                idents.append(("r%d" % ri, ident, text))
+                g += 1
+            rules_src.append("rule r%d { strings: %s condition: any of them }" % (ri, " ".join(decls)))
+        others = [i for i in range(total) if i != capidx]
+        # scan 1: > L occurrences of the capped string, a few markers planted (also markers beyond index 64)
+        n1 = L + 100000 + r.range(0, 5000)
+        mark1 = sorted(set([r.choice(others) for _ in range(3)] + [others[-1], others[0]]))
+        plant1, want1, pos = [], {}, 1000
+        for i in mark1:
+            for _ in range(r.range(1, 3)):
+                plant1.append("plant %d %s" % (pos, R(idents[i][2])))
+                want1[i] = want1.get(i, 0) + 1
+                pos += r.range(7, 200000)
+        # scan 2: a small buffer: 3 occurrences of the capped string, some markers
+        mark2 = sorted(set([r.choice(others) for _ in range(4)] + [others[-1]]))
+        small = b"--"
+        want2 = {capidx: 3}
+        for j in range(3):
+            small += capstr.encode() + b"-" + (idents[mark2[j % len(mark2)]][2].encode() if j < 2 else b"") + b"--"
+        for j in range(2):
+            i = mark2[j % len(mark2)]
+            want2[i] = want2.get(i, 0) + 1
+        for i in mark2[2:]:
+            small += idents[i][2].encode() + b".."
+            want2[i] = want2.get(i, 0) + 1
+        cid = "later_" + name
+        cmds = ["newcompiler", "add " + R("\n".join(rules_src)), "getrules", "scanner", "fill 97 %d" % n1] + plant1 + \
+               ["sscan 0 0", "buf " + hx(small), "sscan 0 0", "scanner", "sscan 0 0", "destroy", "smoke"]
+
+        def post(lines, ans, cid=cid, cmds=cmds, idents=idents, capidx=capidx, want1=want1, want2=want2, layout=layout, total=total):
+            count("later", (len(layout), capidx // 64, capidx % 64 in (0, 63), total // 64))
+            if not usable(cid, cmds, lines, "later"):
+                return
+            sc = scans(lines)
+            where = "string index %d of %d strings in %d rule(s)" % (capidx, total, len(layout))
+            if len(sc) != 3 or any(x.get("rc") != 0 for x in sc):
+                viol("later-scan", "%s: scans did not succeed: %s" % (cid, [x.get("rc") for x in sc]), cid, cmds, lines)
+                return
+
+            def counts(x):
+                return {i: x["rules"].get(rn, ("", {}))[1].get(ident, {}).get("cnt") for i, (rn, ident, _) in enumerate(idents)}
+            c1, c2, c3 = counts(sc[0]), counts(sc[1]), counts(sc[2])
+            exp1 = {i: want1.get(i, 0) for i in range(total)}
+            exp1[capidx] = L
+            exp2 = {i: want2.get(i, 0) for i in range(total)}
+            if sc[0]["many"] != 1 or "$c" not in sc[0]["many_ids"]:
+                viol("later-scan", "%s: the cap on $c (%s) was not reported exactly once in the scan that hits it: many=%s:%s"
+                     % (cid, where, sc[0]["many"], sc[0]["many_ids"]), cid, cmds, lines)
+            elif c1 != exp1:
+                bad = {idents[i][1] + "@" + idents[i][0]: (c1[i], exp1[i]) for i in range(total) if c1[i] != exp1[i]}
+                viol("isolated", "%s: in the scan that hits the cap on $c (%s) other results are not exact (got, expected): %s" % (cid, where, bad),
+                     cid, cmds, lines)
+            elif c3 != exp2 or sc[2]["many"] != 0:
+                bad = {idents[i][1] + "@" + idents[i][0]: (c3[i], exp2[i]) for i in range(total) if c3[i] != exp2[i]}
+                viol("later-scan", "%s: scenario/model error: a fresh scanner does not give the expected counts: %s" % (cid, bad), cid, cmds, lines, found=False)
+            elif c2 != c3 or sc[1]["many"] != 0 or sc[1]["rules"] != sc[2]["rules"]:
+                bad = {idents[i][1] + "@" + idents[i][0]: (c2[i], c3[i]) for i in range(total) if c2[i] != c3[i]}
+                viol("later-scan", "%s: the match cap hit on $c (%s) in one scan silently changes the NEXT scan of the same scanner: "
+                     "(same scanner, fresh scanner) = %s" % (cid, where, bad), cid, cmds, lines,
+                     rules="\n".join(r[:200] for r in cmds[1:2]), capped_string_index=capidx)
+            else:
+                stats["agree"] += 1
+        main.add(cid, cmds, post)
+
     # ---- slow-scanning warning looks at the string with index 0 only (replay of slow_warning_per_string_refuted)
     obs = {}
     for order in ("ba", "ab"):
